@@ -45,6 +45,11 @@ def dtype_mix(rt):
             (T("nlargest"), df.nlargest(3, "i")), (T("dropna"), df.dropna(subset=["f"])), (T("clip"), df[["i", "f"]].clip(1, 5)), (T("round"), df[["f"]].round()),
             (T("abs"), (df[["i", "f"]] - 5).abs()), (T("index name"), df.rename_axis(index="idx")), (T("repartition"), df.repartition(npartitions=2)),
             (T("shuffle"), df.shuffle("g")), (T("partitions"), df.partitions[[0]]),
+            # label indexing with a column indexer: rows from the first, interior and last touched partitions
+            (T("loc slice + column list"), df.loc[1:10, ["s", "i"]]), (T("loc slice + one column"), df.loc[1:10, "i"]), (T("loc slice + reordered columns"), df.loc[2:11, ["t", "b", "f"]]),
+            (T("loc list + column list"), df.loc[[1, 5, 9], ["f", "s"]]), (T("loc unsorted list + column"), df.loc[[9, 1, 5], "s"]), (T("loc element + column list"), df.loc[3:3, ["i"]]),
+            (T("loc all rows + column list"), df.loc[:, ["s", "i"]]), (T("loc open slice + column list"), df.loc[5:, ["c", "g"]]), (T("loc slice + column list + elemwise"), df.loc[1:10, ["i", "g"]] + 1),
+            (T("loc boolean series"), df.loc[df.i > 3]), (T("loc boolean + columns"), df.loc[df.i > 3, ["s"]]),
         ]
     return out
 
